@@ -202,6 +202,7 @@ package utils
 //@ pure pk(t string) string = "Trailer:" + t
 //@ func (*streamingResponseWriter).Close props(C03,C07)
 //@   local k range 0 0 _ . Header ( )
+//@   local k range 0 0 _ . trailer
 //@   local vs range 1 0 _ . Header ( )
 //@   local w recv 0 0
 //@   requires w != nil && w.r != nil && w.header != nil && canonKeys(w.header) && prefixedCanon(w.header) && w.respChan != nil && !closed(w.respChan) && w.bodyReader != nil && w.bodyWriter != nil && w.trailer != nil && w.trailer != w.header
